@@ -171,6 +171,9 @@ def run(ctx):
             if t % 7 == 0:                   # translated far away
                 sh = [rng.randrange(-50, 50) for _ in range(nobj)]
                 pts = [[p[j] + sh[j] for j in range(nobj)] for p in pts]
+            if t % 7 == 3:                   # translated VERY far away relative to the ranges (2^20: still exact in binary)
+                sh = [rng.choice([-1, 1]) * 2 ** 20 for _ in range(nobj)]
+                pts = [[p[j] + sh[j] for j in range(nobj)] for p in pts]
             sg = [rng.choice([-1, 1]) for _ in range(nobj)]
             L = [rng.randrange(0, 3) for _ in range(nobj)]
             if not any(L):
@@ -188,6 +191,8 @@ def run(ctx):
                 # min-max scaling makes the distance invariant under a common positive factor: the function receives the
                 # points divided by den (coordinates such as 0.3 that are not representable), TLC the integer points
                 den = float(rng.choice([1, 10, 100, 3, 7]))
+            if t % 11 == 5:
+                den = float(2 ** 30)          # objectives on a tiny absolute scale (exact power of two)
             m = np.array(pts, float) / den
             ranges = []
             for j in range(nobj):
